@@ -6,6 +6,7 @@ import (
 	"fmt"
 	"io"
 	"net"
+	"strings"
 	"sync/atomic"
 	"time"
 
@@ -276,7 +277,18 @@ func (e *c47Env) runBP(c *c47BPCase) {
 		if !stalled {
 			// everything was absorbed by buffers (or the flood failed early): no back-pressure, nothing to judge
 			r.Count("bp_flood_did_not_stall_skipped", 1)
-			_ = floodErr
+			if floodErr != nil {
+				what := "other error"
+				for _, k := range []string{"reset", "broken pipe", "closed", "timeout"} {
+					if strings.Contains(floodErr.Error(), k) {
+						what = k
+						break
+					}
+				}
+				r.Count("bp_flood_did_not_stall_skipped["+c.shape()+": flooder's write failed: "+what+"]", 1)
+			} else {
+				r.Count("bp_flood_did_not_stall_skipped["+c.shape()+": whole stream absorbed]", 1)
+			}
 			return
 		}
 		r.Count("bp_bytes_in_flight_at_close", inflight)
